@@ -40,6 +40,22 @@ func main() {
 		}
 	case "dump":
 		cmdDump(os.Args[2:])
+	case "dump-fields":
+		p, err := zv.Load("/repo", "", "")
+		if err != nil {
+			fmt.Println(err)
+			os.Exit(2)
+		}
+		fmt.Print(zv.DumpFieldTable(p))
+	case "dump-params":
+		// prints the generated table zv/canon_params_gen.go: parameter names of every function of the analysed
+		// packages on the tree it is run on (run on the reference tree; see zv.PN)
+		p, err := zv.Load("/repo", "", "")
+		if err != nil {
+			fmt.Println(err)
+			os.Exit(2)
+		}
+		fmt.Print(zv.DumpParamTable(p))
 	default:
 		usage()
 	}
